@@ -55,6 +55,8 @@ TABLE_SELECTOR_RE = re.compile(
     r"(\[(?P<start_col>[^\]]+)\] *: *)?"
     r"(\[(?P<end_col>.+)\] *)?$")
 
+SIMPLE_SHEETNAME_RE = re.compile(r'^[\w.]*$')
+
 QUESTION_MARK_RE = re.compile(r'\?(?<!~)')
 STAR_RE = re.compile(r'\*(?<!~)')
 
@@ -125,7 +127,7 @@ class AddressMixin:
 
     @staticmethod
     def quote_sheet(sheet):
-        if ' ' in sheet:
+        if not SIMPLE_SHEETNAME_RE.match(sheet):
             sheet = quote_sheetname(sheet)
         return sheet
 
